@@ -559,6 +559,9 @@ func (w *worker) compactKey(key []byte, rawKey []byte, rev uint64) error {
 	if err != nil {
 		w.metricCli.EmitCounter("compact.err", 1)
 		w.updateSkippedRawKey(rawKey, rev, err)
+		// whatever the error (an engine may report a conflict for a plain delete), an old version
+		// that is still there must keep its tombstone: skip the rest of this key
+		w.lastCompactFailedRawKey = rawKey
 	}
 	return err
 }
